@@ -98,6 +98,9 @@ type clientOpt struct {
 	ServerName  string
 	Keepalive   time.Duration
 	Address     string
+	// Sibling: another Client is built first on the very same *tls.Config (never connected), with Insecure on
+	// ("insecure") or off ("strict"): what one client does to the configuration must not leak into the other
+	Sibling string
 }
 
 func newTestClient(addr string, o clientOpt) (*xmpp.Client, *recorder, error) {
@@ -138,6 +141,13 @@ func newTestClientCfg(addr string, o clientOpt) (*xmpp.Client, *recorder, *xmpp.
 	}
 	if o.SM {
 		xmpp.VerifSetResume(cfg, true)
+	}
+	if o.Sibling != "" && cfg.TLSConfig != nil {
+		sib := *cfg
+		sib.Insecure = o.Sibling == "insecure"
+		if _, err := xmpp.NewClient(&sib, xmpp.NewRouter(), func(error) {}); err != nil {
+			return nil, rec, cfg, err
+		}
 	}
 	c, err := xmpp.NewClient(cfg, router, rec.onError)
 	if err != nil {
